@@ -95,3 +95,16 @@ func TestC05ClientCorruptedFrame(t *testing.T) {
 		})
 	})
 }
+
+// TestC05ClientProducedFrames: the frames the client writes - blocks with a large incompressible
+// value among them, external data and streamed input included - are each one checksummed frame that
+// verifies and decompresses to the block that was encoded (the reference parser of the client
+// stream checks every frame; the blocks are compared with the model as in C02).
+func TestC05ClientProducedFrames(t *testing.T) {
+	st := stats.G()
+	c02BigCompressed = true
+	defer func() { c02BigCompressed = false }()
+	rapid.Check(t, func(rt *rapid.T) {
+		rapid.SyncTest(rt, func(rt *rapid.T) { runC02(rt, st) })
+	})
+}
